@@ -1,2 +1,21 @@
-// Package c16 decides C16 (see DESIGN.md section 4). Not built yet.
+// Package c16 decides C16 (minification preserves behaviour): the MiniGo
+// programs built with Minify must print what spec/MiniGo.tla predicts (the same
+// prediction the unminified builds are held to), in the plain and in the
+// resumable form.  The scanner and the name allocator are additionally driven
+// directly through the verif exports (see scanner.go).
 package c16
+
+import (
+	"verif/core"
+	"verif/gjs"
+	"verif/props/minigo"
+	"verif/reg"
+)
+
+func init() { reg.Register("C16", "model_checking", Run) }
+
+// Run is the C16 check.
+func Run(c *core.Ctx, pool *gjs.Pool) {
+	minigo.Check(c, pool, minigo.Config{Prop: "C16", Families: true, Random: c.Pick(250, 5000), NodeCheck: true,
+		Modes: []minigo.Mode{{Name: "minified-plain", Minify: true}, {Name: "minified-resumable", Flat: true, Minify: true, Masks: c.Pick(2, 8)}}})
+}
